@@ -1,8 +1,8 @@
 from .model import SCHEMA, Spec
-from . import c_dimension, c_prefix, c_unit, c_quantity, c_registry, c_lemmas
+from . import c_dimension, c_prefix, c_unit, c_quantity, c_registry, c_lemmas, c_conversions
 
 CONTRACTS = {}
-for _m in (c_dimension, c_prefix, c_unit, c_quantity, c_registry, c_lemmas):
+for _m in (c_dimension, c_prefix, c_unit, c_quantity, c_registry, c_lemmas, c_conversions):
     CONTRACTS.update(_m.CONTRACTS)
 SPEC = Spec()
 
